@@ -11,6 +11,10 @@ CLAIMS['C20'] = dict(text='Finite domain covered completely by symbolic variable
              note='FixedStream stand-in for the stream parameter; clang -O1 lowering; ll2c translation (self-checked every run).', ref='6/C20')
 CLAIMS['C05'] = dict(text='Modular bounded model checking of the real parser functions: each of Parse/parseValue/parseObject/parseArray/UnEscape/stringToNumber alone over an exact-size, fully symbolic buffer of every length up to N from an arbitrary cursor, callees under assume-guarantee contracts (precondition asserted at each call site, progress postcondition asserted at each exit); by induction over call depth this gives memory safety and termination at every nesting depth for buffers up to N. Counterexamples are lifted to JSON::Parse on an exact-size heap buffer under ASan.',
              note='Bounded: N = 5 (quick) / 8 (thorough) units, 3 widths. Heap-free Value/String stand-ins in cursor harnesses; power-of-ten kernels havoc. The 512-nesting-levels stack clause is not addressed (resource property). clang -O1 lowering.', ref='6/C05')
+CLAIMS['C07'] = dict(text='Modular functional verification of each grammar production of the real parser: for fully symbolic buffers up to N units and an arbitrary cursor, with callees under logging assume-guarantee contracts, the solver shows that Parse/parseValue/parseObject/parseArray return a defined value IF AND ONLY IF the text matches the RFC 8259 production (oracle recomputed from buffer and callee log), end exactly at the end of the match, and report the failure sentinel otherwise. By induction over nesting depth this is all-or-nothing parsing for every text up to N units (prefixes, trailing units, flipped or missing brackets included).',
+             note='Bounded: N = 4 (quick) / 6 (thorough). Relative to the string/number token recognisers (C20, C09). Heap-free stand-ins for Value/containers/String. Prefix-freeness of the container grammar is a grammar fact used to relate the iff to the prefix clause.', ref='6/C07')
+CLAIMS['C06'] = dict(text='Compositional bounded model checking: structure - each production of the real parser accepts exactly its RFC 8259 production over fully symbolic buffers up to N units and builds the members in order with their keys and pass-through scalar payloads (completeness + tree shape; modular over nesting); strings - every \\uXXXX escape and surrogate pair through the real un-escaper for UTF-8/16/32 (finite domain, complete).',
+             note='Numbers are delegated to C09; duplicate-key replacement to C13 (real HArray). Structure queries use recording stand-ins for Value/containers (the real container-kind Value is beyond reach of CBMC on this image). N = 4 (quick) / 6 (thorough).', ref='6/C06')
 NA = {}
 def main():
     props = [json.loads(l)['id'] for l in open(os.path.join(ROOT, 'properties.jsonl'))]
